@@ -2,7 +2,7 @@
     [cp c] = code point 0..0x10FFFF (a superset of the scalar values); [Rep h s cs] = in heap [h]
     the string record [s] (bytes object, offset, size) represents the code-point array [cs]. *)
 From ChibiV Require Import C12.Model C12.Spec C12.Utf8Proofs C12.Proofs C12.Proofs2 C12.Proofs3 C12.Proofs4
-  C12.PortModel C12.PortProofs.
+  C12.PortModel C12.PortProofs C12.RangeModel C12.OutProofs.
 Local Open Scope Z_scope.
 
 Theorem utf8_roundtrip : forall c, cp c -> forall rest,
@@ -158,3 +158,45 @@ Theorem port_char_roundtrip : forall cs n src sched, Forall cp cs -> (BUF_START 
   (exists p', read_string (length cs) (open_string_port src) = (cs, p') /\ pending p' = [] /\ port_ok p').
 Proof. exact port_read_roundtrip. Qed.
 Print Assumptions port_char_roundtrip.
+
+(* ---------------------------------------------------------------- round 3: output and optional ranges *)
+(** [oport_ok o]: write offset <= size = buffer length >= 1.  [out_bytes o] = what get-output-string returns /
+    what has reached the file: the flushed chunks, then the buffer up to the offset. *)
+Theorem write_char_refines : forall o c, oport_ok o -> cp c ->
+  exists o', write_char o c = Ok o' /\ oport_ok o' /\ out_bytes o' = out_bytes o ++ encode c.
+Proof. exact write_char_spec. Qed.
+Print Assumptions write_char_refines.
+
+(** write-char of every character to a string port of any buffer size, then read-char of the bytes from a
+    string port or a file-descriptor port (any buffer size > 4, any schedule of read sizes) gives them back *)
+Theorem port_write_then_read_roundtrip : forall cs wn rn sched, Forall cp cs -> (1 <= wn)%nat -> (BUF_START < rn)%nat ->
+  exists o, write_chars (open_output_string wn) cs = Ok o /\ out_bytes o = enc_all cs /\
+    (exists p', read_string (length cs) (open_string_port (out_bytes o)) = (cs, p') /\ pending p' = []) /\
+    (exists p', read_string (length cs) (open_fd_port rn (out_bytes o) sched) = (cs, p') /\ pending p' = []).
+Proof. exact port_write_read_roundtrip. Qed.
+Print Assumptions port_write_then_read_roundtrip.
+
+(** the byte-count contract of the %write-string opcode: [count] (None = #t) is a number of BYTES: for every
+    count in 0..size, on a character boundary or not, exactly that many bytes of the string's own slice are
+    appended; any other count raises.  (A Scheme wrapper must convert character indices first.) *)
+Theorem write_string_opcode_counts_bytes : forall h s cs count o, Rep h s cs -> oport_ok o ->
+  let n := match count with None => Z.of_nat (ssize s) | Some n => n end in
+  if (0 <=? n) && (n <=? Z.of_nat (ssize s)) then
+    exists o', op_write_string h s count o = Ok o' /\ oport_ok o' /\
+               out_bytes o' = out_bytes o ++ firstn (Z.to_nat n) (enc_all cs)
+  else op_write_string h s count o = Err RangeErr.
+Proof. exact op_write_string_contract. Qed.
+Print Assumptions write_string_opcode_counts_bytes.
+
+(** write-string with no range, (start) or (start end): the bytes that reach the port are the standard
+    encoding of the characters start..end-1 (sub = firstn/skipn on the code-point array), nothing else; every
+    other string keeps its contents; an invalid range raises *)
+Theorem write_string_range : forall h s cs r o, Rep h s cs -> oport_ok o ->
+  let '(a, e) := range_bounds r (length cs) in
+  if (0 <=? a) && (a <=? e) && (e <=? Z.of_nat (length cs)) then
+    exists h' o', write_string_io h s r o = Ok (h', o') /\ oport_ok o' /\
+                  out_bytes o' = out_bytes o ++ enc_all (sub (Z.to_nat a) (Z.to_nat e) cs) /\
+                  (forall t ct, Rep h t ct -> Rep h' t ct)
+  else exists x, write_string_io h s r o = Err x.
+Proof. exact write_string_range_refines. Qed.
+Print Assumptions write_string_range.
